@@ -97,7 +97,7 @@ def cat(tier):
     if tier not in _CAT:
         c = catalog.all_load_models(tier)
         if tier == 'quick':
-            c = c[::3] + [m for i, m in enumerate(c) if i % 3 and m[0] in ('season', 'shorthand', 'element-order')]
+            c = c[::3] + [m for i, m in enumerate(c) if i % 3 and m[0] in ('season', 'shorthand', 'element-order', 'dashed')]
         _CAT[tier] = c + more_models()
     return _CAT[tier]
 
